@@ -13,6 +13,7 @@ package main
 // untouched).
 
 import (
+	"encoding/json"
 	"fmt"
 	"sort"
 	"strings"
@@ -332,6 +333,80 @@ func (v *vdrRun) buildChecks() {
 		if a != b {
 			v.violate("C04", "correspondence", "C04:model:clone-shares",
 				fmt.Sprintf("emptying the bookkeeping of a clone of a fork of %s changed the original: before %s after %s", n, b, a), nil)
+		}
+	}
+}
+
+// ---- values: the model's getMaybeFileNames (Val.names) against the real one
+
+func vdrEncVal(x interface{}) string {
+	switch t := x.(type) {
+	case nil:
+		return "n"
+	case string:
+		return "s " + hx(t)
+	case []interface{}:
+		var sb strings.Builder
+		sb.WriteString("a")
+		for _, y := range t {
+			sb.WriteString(" k - " + vdrEncVal(y))
+		}
+		sb.WriteString(" e")
+		return sb.String()
+	case map[string]interface{}:
+		keys := make([]string, 0, len(t))
+		for k := range t {
+			keys = append(keys, k)
+		}
+		sort.Strings(keys)
+		var sb strings.Builder
+		sb.WriteString("o")
+		for _, k := range keys {
+			sb.WriteString(" k " + hx(k) + " " + vdrEncVal(t[k]))
+		}
+		sb.WriteString(" e")
+		return sb.String()
+	}
+	return "x"
+}
+
+// valueChecks: for the outs of the stage forks at the pre-final snapshot, every
+// output value's file names as the real getMaybeFileNames finds them against
+// the model's Val.names.
+func (v *vdrRun) valueChecks(s *vdrSnapshot) {
+	n := 0
+	for i := range s.Forks {
+		f := &s.Forks[i]
+		if f.Kind != "stage" || n >= 24 {
+			continue
+		}
+		outs, ok := s.Outs[v.rel(f.Path)]
+		if !ok {
+			continue
+		}
+		var m map[string]json.RawMessage
+		if json.Unmarshal(outs, &m) != nil {
+			continue
+		}
+		keys := make([]string, 0, len(m))
+		for k := range m {
+			keys = append(keys, k)
+		}
+		sort.Strings(keys)
+		for _, k := range keys {
+			var val interface{}
+			if json.Unmarshal(m[k], &val) != nil {
+				continue
+			}
+			names := core.VerifGetMaybeFileNames(m[k])
+			sort.Strings(names)
+			v.res.Checks = append(v.res.Checks, VdrModelCheck{Name: "valueNames",
+				Req: []string{"C04.names", vdrEncVal(val)}, Expect: vdrHexPaths(uniqStrings(names)),
+				What: "getMaybeFileNames on output " + k + " of " + f.Fqname + " (" + string(compactJSON(m[k])) + ") and the model's Val.names disagree"})
+			n++
+			if len(names) > 0 {
+				v.hist("value-names-nonempty")
+			}
 		}
 	}
 }
